@@ -46,7 +46,10 @@ def _fd(draw):
                 x=draw(st.lists(st.sampled_from([0.0, 1e-8, 1.0, -1.0, 3.0, 1e3, -0.5]), min_size=n, max_size=n)),
                 base_order=draw(st.integers(2, 8)),
                 tol=draw(st.sampled_from([None, 1e-6, 1e-10])), flat=draw(st.booleans()),
-                adaptive=draw(st.sampled_from([True, True, True, False])))
+                adaptive=draw(st.sampled_from([True, True, True, False])),
+                # an integer-typed evaluation point and a function that keeps the dtype of its argument (x^3 - 2x elementwise)
+                int_point=draw(st.sampled_from([False, False, False, False, True])),
+                xi=draw(st.lists(st.integers(-3, 3), min_size=n, max_size=n)))
 
 
 @st.composite
@@ -103,6 +106,17 @@ def _check_fd(case):
     v = x.reshape(n)
     Jtrue = (A @ (dg(B @ (v * w))[:, None] * B * w[None, :]) + C)
     fmag = float(np.max(np.abs(f(x)))) if m else 0.0
+    if case.get("int_point"):
+        outs, m = ins, n
+
+        def f(xx):        # noqa: F811  (stays in the dtype of its argument: integers in, integers out)
+            return xx * xx * xx - 2 * xx
+        x = np.asarray(case["xi"], dtype=np.int64).reshape(ins)
+        v = x.reshape(n).astype(np.float64)
+        Jtrue = np.diag(3 * v ** 2 - 2)
+        fmag = float(np.max(np.abs(v ** 3 - 2 * v)))
+        case = dict(case, adaptive=True)
+        phi = "cubic"          # (the accuracy bound of a nonlinear map applies, not the rounding-level bound of linear ones)
     tol = case["tol"]
     kw = {} if tol is None else dict(atol=tol, rtol=tol)
     viols = []
